@@ -436,6 +436,12 @@ def ctor_kwargs_variants(rec, P):
         cs = K["conf"][:4] if not P.get("small") else K["conf"][:2] + [v for v in K["conf"][-1:] if v not in K["conf"][:2]]
         for v in cs:
             out.append(("new:conf", dict(base, **{n: v})))
+        if P.get("foreign_containers") and "item" in K:
+            # the right elements in the WRONG container (a tuple for a list / set attribute, a plain list for a keyed container):
+            # the constructor rebuilds the container - the elements are constructor arguments like any other
+            last = K["conf"][-1]
+            if isinstance(last, list) and len(last) == 2 and isinstance(last[1], list) and last[0] in ("list", "set", "KeyedList", "KeyedSet"):
+                out.append(("new:foreign_container", dict(base, **{n: ["tuple" if last[0] in ("list", "set") else "list", last[1]]})))
         if P.get("invalid", True):
             for v in K["bad"][: (1 if P.get("small") else 3)]:
                 out.append(("new:bad", dict(base, **{n: v})))
